@@ -465,8 +465,6 @@ Proof.
 Qed.
 
 (* ================= exactness on multiples of 1/100 ================= *)
-Definition hundredth (q : Q) : Prop := exists z : Z, (q == inject_Z z / 100)%Q.
-
 Lemma hundredth_round2 q : hundredth q -> (q == inject_Z (round2 q) / 100)%Q.
 Proof. intros [z Hz]. rewrite (round2_hundredths q z Hz). exact Hz. Qed.
 
@@ -548,9 +546,6 @@ Proof. induction a as [|x a IH]; simpl; [reflexivity | rewrite IH; reflexivity].
 Lemma sapp_nil_r (a : string) : a ++ "" = a.
 Proof. induction a as [|x a IH]; simpl; [reflexivity | rewrite IH; reflexivity]. Qed.
 
-(* every character of s satisfies P *)
-Fixpoint sall (P : ascii -> bool) (s : string) : bool :=
-  match s with EmptyString => true | String c s' => P c && sall P s' end.
 
 Lemma sall_app P a b : sall P (a ++ b) = sall P a && sall P b.
 Proof. induction a as [|x a IH]; simpl; [reflexivity | rewrite IH, andb_assoc; reflexivity]. Qed.
@@ -562,9 +557,6 @@ Proof.
   rewrite !andb_true_iff. intros [H1 H2]. split; [apply H; exact H1 | apply IH; exact H2].
 Qed.
 
-Definition digitc (c : ascii) : bool := let k := nat_of_ascii c in ((48 <=? k) && (k <=? 57))%nat.
-Definition not_ws (c : ascii) : bool := negb (is_ws c).
-Definition not_char (x : ascii) (c : ascii) : bool := negb (Ascii.eqb c x).
 
 Lemma digitc_not_ws c : digitc c = true -> not_ws c = true.
 Proof.
@@ -873,14 +865,6 @@ Proof.
 Qed.
 
 (* ---------- the whole file ---------- *)
-Definition raw := (nat * nat * Q)%type.
-Definition raw_diag (p : problem) : list raw :=
-  flat_map (fun i => if is_zero (dvec p i) then [] else [(i, i, dvec p i)]) (seq 0 (p_n p)).
-Definition raw_off (p : problem) : list raw :=
-  flat_map (fun t => match t with (r, c, v) => if (r =? c)%nat then [] else [(r, c, v)] end)
-           (find_entries (p_n p) (p_mat p)).
-Definition raw_line (t : raw) : string := match t with (i, j, q) => record_line i j q end.
-Definition raw_entry (t : raw) : entry := match t with (i, j, q) => (i, j, round2 q) end.
 
 Lemma map_flat_map {A B C} (g : B -> C) (h : A -> list B) l :
   map g (flat_map h l) = flat_map (fun x => map g (h x)) l.
